@@ -76,6 +76,8 @@ type Ctx struct {
 	cgCHA *callgraph.Graph
 	cgVTA *callgraph.Graph
 
+	mods     map[*ssa.Function]map[string]bool
+
 	obs      []Ob
 	analysed map[string]bool
 	notes    []string
@@ -394,4 +396,60 @@ func calleeName(c *Ctx, ci ssa.CallInstruction) string {
 		return "builtin." + b.Name()
 	}
 	return ""
+}
+
+// modSet: names of struct fields ("x"), slice/array elements ("[]") and pointer targets ("*") a function may
+// store to, transitively through static callees and closures it creates; dynamic calls give "*".
+func (c *Ctx) modSet(f *ssa.Function) map[string]bool {
+	if c.mods == nil {
+		c.mods = map[*ssa.Function]map[string]bool{}
+		funcs := c.srcFuncs()
+		for _, g := range funcs {
+			c.mods[g] = map[string]bool{}
+		}
+		for changed := true; changed; {
+			changed = false
+			for _, g := range funcs {
+				m := c.mods[g]
+				add := func(k string) {
+					if !m[k] {
+						m[k] = true
+						changed = true
+					}
+				}
+				for _, b := range g.Blocks {
+					for _, in := range b.Instrs {
+						switch x := in.(type) {
+						case *ssa.Store:
+							switch a := x.Addr.(type) {
+							case *ssa.FieldAddr:
+								add(fieldName(a.X.Type(), a.Field))
+							case *ssa.IndexAddr:
+								add("[]")
+							case *ssa.Alloc:
+							default:
+								add("*")
+							}
+						case *ssa.MakeClosure:
+							for k := range c.mods[x.Fn.(*ssa.Function)] {
+								add(k)
+							}
+						case ssa.CallInstruction:
+							if sc := x.Common().StaticCallee(); sc != nil {
+								for k := range c.mods[sc] {
+									add(k)
+								}
+							} else if _, isB := x.Common().Value.(*ssa.Builtin); !isB {
+								add("*")
+							}
+						}
+					}
+				}
+			}
+		}
+	}
+	if m, ok := c.mods[f]; ok {
+		return m
+	}
+	return map[string]bool{"*": true}
 }
